@@ -221,6 +221,9 @@ func (g *Gen) genGroup(cfg *ShapeCfg, prefix string, depth, maxRoutes int) RegOp
 		op.Path = "/g"
 	}
 	op.MW = g.newIDs('m', rng.Intn(3), cfg)
+	if rng.Chance(1, 6) {
+		op.Via = "controller"
+	}
 	full := prefix + op.Path
 	if op.Path == "" {
 		full = prefix + "/" // Group("") is registered like Group("/")
@@ -250,7 +253,10 @@ func (g *Gen) genRoute(cfg *ShapeCfg, prefix string) RegOp {
 	default:
 		op.Path = rng.Pick(irregularPats)
 	}
-	switch rng.Intn(6) {
+	switch rng.Intn(7) {
+	case 6:
+		op.Via = "attach"
+		op.Methods = []string{rng.Pick(commonMethods)}
 	case 0:
 		op.Via = "add"
 		k := rng.Range(1, 3)
